@@ -96,6 +96,15 @@ CHECKS = {
             'Trusted: the Python reductions. Floats are dyadic rationals so == is exact. Mismatched init/op combinations: '
             'only "both raise" is asserted. Bounds: <= 4 elements, nesting <= 3, levels <= 3.',
             'DESIGN.md section 4 / C15'),
+    'C16': ('Hypothesis-generated item sequences x Group spec trees (1-3 key levels, all listed leaf aggregators, top-level '
+            'Limit) vs an explicit bucketing loop; every spec object is evaluated repeatedly, per row of a list spec and '
+            'inside another Group\'s aggregator to expose state carried between evaluations',
+            'Generated-input differential testing: key order (first occurrence), value order (encounter), SKIP handling, '
+            'aggregator values, plus metamorphic re-use checks (second evaluation, evaluation after other data, per-row '
+            'evaluation, nested Group) and identity-disjointness of the results of separate evaluations.',
+            'Trusted: refgroup() in vf/props/c16.py. Known finding F15 (First below a key level) is isolated in its own '
+            'sub-check and recognised by an emulation-based classifier. Bounds: <= 8 items, <= 3 key levels.',
+            'DESIGN.md section 4 / C16'),
 }
 
 NOT_YET = 'check not built yet in this session (design in DESIGN.md section 4); will be claimed once its check is quiet on the unchanged tree'
